@@ -19,17 +19,9 @@ TRACK = 'tracklib.core.track.Track'
 EDGE = 'tracklib.core.network.Edge'
 
 EXPLANATION = (
-    "Static comparison of writers with their readers (two programs, one table each): coordinate precision per "
-    "coordinate system; the writer's column-slot table against the order in which the data list is built, for the "
-    "four presence cases, and the reader's field extraction by the same four indices with presence tests that treat "
-    "column 0 as present; format attributes read by writer and reader are attributes TrackFormat defines and the "
-    "header option reaches the header test; default print and read timestamp formats agree, the precompiled read "
-    "table equals the offsets implied by the format string, the print substitution list is aligned with the code "
-    "table; GPX attribute order vs the reader's positional split, tags, precision, and the print format restored on "
-    "every exit; network CSV column order vs a named network format, orientation written/validated over the three "
-    "constants, exact header skip; WKT writer/parser separators.")
+    'Static analysis by interpretation of the source (nothing imported or executed by CPython; open(), os.path and csv.reader act on an in-memory store): a track written by the interpreted CSV or GPX writer and read back by the interpreted reader with the matching format must have the same observations in order, coordinates to the written precision (1 mm metric, 1e-8 degree geographic) and timestamps to the second (milliseconds >= 500, midnight, month and year ends included); the global timestamp print format must be what it was before writing; a network written to CSV and read back must have the same nodes (ids and places), edges, end nodes, orientations and geometries; WKT text must parse back to the same planimetric coordinates.')
 ASSUMPTIONS = ["values containing the separator or the no-data sentinel are value-level cases, not decided"]
-TECHNIQUE = "writer/reader table agreement (F5), index/slot pairing over presence cases (F3), constant-domain evaluation (F4), must-restore path rule (F6)"
+TECHNIQUE = "abstract interpretation of the writers and readers (TrackWriter / TrackReader / TrackFormat / ObsTime print and read formats, NetworkWriter / NetworkReader / NetworkFormat, Track.toWKT / parseWkt) by the checker's AST interpreter over an in-memory file system: round trips for three coordinate systems x every column permutation x separators x header options, GPX one-file / per-track, a four-edge network with the three orientations, WKT text (bounded case domain)"
 
 
 def vr(v):
@@ -638,13 +630,370 @@ def rule_W(ctx):
                   witness={'constructor': e.name, 'arguments': got, 'expected': want}, node=e.node, key='wkt2obs-xy:' + e.name)
 
 
+def _io_harness(ctx, module):
+    from .. import absint, orders, npstub, iomodel
+    fn = absint.funcs(ctx, module, dict(npstub.stubs()))
+    fn['progressbar'] = lambda x, **k: x
+
+    def _exit(*a):
+        raise orders.Raised('SystemExit', 'exit()')
+    fn['exit'] = _exit
+    vfs = iomodel.VFS().install(fn)
+
+    class _Clock(orders.PyStub):
+        """datetime.now(): a fixed instant (the creation time written in file headers is not part of the property)"""
+        year, month, day, hour, minute, second, microsecond = 2024, 1, 2, 3, 4, 5, 0
+
+        def now(self, *a):
+            return self
+    fn['__globals__']['datetime'] = _Clock()
+    cls = {}
+    for q in ('tracklib.core.track.Track', 'tracklib.core.obs_time.ObsTime', 'tracklib.io.track_format.TrackFormat', 'tracklib.io.track_writer.TrackWriter',
+              'tracklib.io.track_reader.TrackReader', 'tracklib.core.track_collection.TrackCollection'):
+        if q not in ctx.prog.classes:
+            raise anchor_error('class %s not found' % q, q)
+        cls[q.rsplit('.', 1)[1]] = absint.classref(ctx, q, fn)
+
+    def coords(kind, names):
+        class C(orders.PyStub):
+            isa = (kind,)
+
+            def __init__(self, a, b, c=0.0):
+                for k_, v_ in zip(names, (a, b, c)):
+                    setattr(self, k_, v_)
+
+            def getX(self):
+                return getattr(self, names[0])
+
+            def getY(self):
+                return getattr(self, names[1])
+
+            def getZ(self):
+                return getattr(self, names[2])
+
+            def setX(self, v):
+                setattr(self, names[0], v)
+
+            def setY(self, v):
+                setattr(self, names[1], v)
+
+            def setZ(self, v):
+                setattr(self, names[2], v)
+
+            def copy(self):
+                return C(self.getX(), self.getY(), self.getZ())
+
+            def __str__(self):
+                return '[%s=%.3f, %s=%.3f, %s=%.3f]' % (names[0], self.getX(), names[1], self.getY(), names[2], self.getZ())
+        C.__name__ = C.__qualname__ = kind
+        return C
+    kinds = {'ENU': coords('ENUCoords', ('E', 'N', 'U')), 'GEO': coords('GeoCoords', ('lon', 'lat', 'hgt')), 'ECEF': coords('ECEFCoords', ('X', 'Y', 'Z'))}
+    for c in kinds.values():
+        fn[c.__name__] = c
+        fn['__globals__'][c.__name__] = c
+
+    def makeCoords(x, y, z, srid):
+        s_ = str(srid).upper()
+        return kinds['ENU' if s_.startswith('ENU') else 'GEO' if s_.startswith('GEO') else 'ECEF'](x, y, z)
+    fn['makeCoords'] = makeCoords
+
+    class O(orders.PyStub):
+        isa = ('Obs',)
+
+        def __init__(self, position, timestamp=None):
+            self.position = position
+            self.timestamp = timestamp if timestamp is not None else cls['ObsTime']()
+            self.features = []
+
+        def copy(self):
+            o = O(self.position.copy(), absint.deep_copy(self.timestamp))
+            o.features = list(self.features)
+            return o
+    fn['Obs'] = O
+    fn['__globals__']['Obs'] = O
+    return fn, vfs, cls, kinds, O
+
+
+def rule_R(ctx):
+    """C13.R CSV round trip by interpretation: TrackWriter.writeToFile then TrackReader.readFromFile (with TrackFormat, ObsTime.__str__ /
+    readTimestamp beneath them) on an in-memory file, for the three coordinate systems, every permutation of the column indices (with and
+    without height / time), three separators and both header options"""
+    import itertools
+    from .. import absint
+    fw = ctx.prog.func('tracklib.io.track_writer.TrackWriter.writeToFile')
+    fn, vfs, cls, kinds, O = _io_harness(ctx, 'tracklib.io.track_reader')
+    T, OT, TF, TW, TR = cls['Track'], cls['ObsTime'], cls['TrackFormat'], cls['TrackWriter'], cls['TrackReader']
+    stamps = [(2021, 12, 31, 23, 59, 59, 750), (2022, 1, 1, 0, 0, 0, 0), (2020, 2, 29, 12, 30, 15, 500), (1999, 3, 1, 6, 7, 8, 499)]
+    values = {'ENU': [(-1234.567, 0.001, 12.345), (98765.432, -0.004, -3.0), (0.0, 5.5, 100.125), (7.0, 8.0, 9.0)],
+              'GEO': [(2.12345678, 48.87654321, 35.5), (-179.99999999, -89.5, -10.25), (0.00000001, 0.0, 0.0), (151.2, -33.86, 58.0)],
+              'ECEF': [(4201234.567, 168765.432, 4780123.001), (-2694045.0, -4293642.0, 3857878.5), (6378137.0, 0.0, 0.0), (1.5, -2.5, 3.5)]}
+    tol = {'ENU': 1.001e-3, 'GEO': 1.001e-8, 'ECEF': 1.001e-3}
+    found = {}
+    n_cases = 0
+
+    def build(srid):
+        return T([O(kinds[srid](*v), OT(*st)) for v, st in zip(values[srid], stamps)], 'u', 't')
+    # the default formats, before anything sets a format: a timestamp printed is read back identical to the second
+    fo_ = ctx.prog.func('tracklib.core.obs_time.ObsTime.readTimestamp')
+    for st in stamps:
+        n_cases += 1
+        try:
+            txt = OT(*st).call('__str__')
+            back = OT.readTimestamp(txt)
+            gt = tuple(back.fields.get(f_) for f_ in ('year', 'month', 'day', 'hour', 'min', 'sec')) if isinstance(back, orders.Obj) else None
+        except orders.Unsupported as ex:
+            raise shape_error('ObsTime print/read not interpretable: %s' % ex, fo_.loc())
+        except (IndexError, KeyError, TypeError, AttributeError, ValueError, orders.Raised) as ex:
+            txt, gt = None, '%s: %s' % (type(ex).__name__, ex)
+        if gt != st[:6]:
+            found.setdefault('default-format', ('with the default formats a printed timestamp is read back identical to the second', {'timestamp': list(st), 'printed': txt, 'read back': list(gt) if isinstance(gt, tuple) else gt}))
+    layouts = []
+    for perm in itertools.permutations(range(4)):
+        layouts.append(dict(zip(('id_E', 'id_N', 'id_U', 'id_T'), perm)))
+    for perm in itertools.permutations(range(3)):
+        layouts.append(dict(zip(('id_E', 'id_N', 'id_T'), perm), id_U=-1))
+        layouts.append(dict(zip(('id_E', 'id_N', 'id_U'), perm), id_T=-1))
+    layouts.append({'id_E': 0, 'id_N': 1, 'id_U': -1, 'id_T': -1})
+    layouts.append({'id_E': 1, 'id_N': 0, 'id_U': -1, 'id_T': -1})
+    plan = []
+    for srid in ('ENU', 'GEO', 'ECEF'):
+        for k, lay in enumerate(layouts):
+            sep = (',', ';', '\t')[k % 3]
+            h = (k // 3) % 2
+            plan.append((srid, lay, sep, h))
+    for srid, lay, sep, h in plan:
+        n_cases += 1
+        case = {'coordinates': srid, 'columns': lay, 'separator': sep, 'header': h}
+        path = '/out/t%d.csv' % n_cases
+        src = build(srid)
+        try:
+            TW.writeToFile(src, path, lay['id_E'], lay['id_N'], lay['id_U'], lay['id_T'], sep, h)
+            fmt = TF({'ext': 'CSV', 'srid': srid, 'id_E': lay['id_E'], 'id_N': lay['id_N'], 'id_U': lay['id_U'], 'id_T': lay['id_T'], 'separator': sep, 'header': h})
+            back = TR.readFromFile(path, fmt)
+        except orders.Unsupported as ex:
+            raise shape_error('CSV write/read not interpretable: %s' % ex, fw.loc())
+        except (IndexError, KeyError, TypeError, AttributeError, ValueError, ZeroDivisionError, orders.Raised) as ex:
+            found.setdefault('fails', ('a written CSV file can be read back with the matching format', dict(case, exception='%s: %s' % (type(ex).__name__, str(ex)[:200]), file=vfs.files.get(path, '')[:300])))
+            continue
+        if isinstance(back, orders.Obj) and '_TrackCollection__TRACES' in back.fields:
+            trs = back.fields['_TrackCollection__TRACES']
+            back = trs[0] if len(trs) == 1 else back
+        pts = back.fields.get('_Track__POINTS') if isinstance(back, orders.Obj) else None
+        if pts is None or len(pts) != len(stamps):
+            found.setdefault('count', ('the track read back has the same number of observations in the same order', dict(case, **{'written': len(stamps), 'read': None if pts is None else len(pts), 'file': vfs.files.get(path, '')[:400]})))
+            continue
+        for k, (o, v, st) in enumerate(zip(pts, values[srid], stamps)):
+            got = (o.position.getX(), o.position.getY(), o.position.getZ())
+            want = (v[0], v[1], v[2] if lay['id_U'] != -1 else 0.0)
+            if not isinstance(o.position, kinds[srid]) or any(not isinstance(g_, (int, float)) or abs(g_ - w_) > tol[srid] for g_, w_ in zip(got, want)):
+                found.setdefault('coords', ('coordinates read back equal the written ones to the written precision (1 mm metric, 1e-8 degree geographic), in the same coordinate system',
+                                            dict(case, observation=k, written=list(want), read=[g_ for g_ in got], **{'line of the file': vfs.files.get(path, '').split('\n')[k + (4 if h else 0)] if h == 0 else vfs.files.get(path, '')[:300]})))
+                break
+            if lay['id_T'] != -1:
+                ts = o.timestamp
+                gt = tuple(ts.fields.get(f_) for f_ in ('year', 'month', 'day', 'hour', 'min', 'sec')) if isinstance(ts, orders.Obj) else None
+                if gt != st[:6]:
+                    found.setdefault('time', ('timestamps read back are identical to the second', dict(case, observation=k, written=list(st[:6]), read=list(gt) if gt else repr(ts), file=vfs.files.get(path, '')[:300])))
+                    break
+    # the documented blank separator, with a time column
+    n_cases += 1
+    try:
+        src = build('ENU')
+        TW.writeToFile(src, '/out/blank.csv', 0, 1, 2, 3, ' ', 0)
+        fmt = TF({'ext': 'CSV', 'srid': 'ENU', 'id_E': 0, 'id_N': 1, 'id_U': 2, 'id_T': 3, 'separator': ' ', 'header': 0})
+        back = TR.readFromFile('/out/blank.csv', fmt)
+        pts = back.fields.get('_Track__POINTS') if isinstance(back, orders.Obj) else None
+        gt = [tuple(o.timestamp.fields.get(f_) for f_ in ('year', 'month', 'day', 'hour', 'min', 'sec')) for o in pts] if pts else None
+        if gt != [st[:6] for st in stamps]:
+            found['sep-clash: '] = ('a file written with the documented blank separator is read back with its timestamps',
+                                    {'separator': ' ', 'first line written': vfs.files.get('/out/blank.csv', '').split('\n')[0], 'timestamps written': [list(st[:6]) for st in stamps][:2],
+                                     'read back': [list(g_) for g_ in gt][:2] if gt else None,
+                                     'why': 'the default timestamp print format contains a blank: the reader splits the timestamp into two fields'})
+    except orders.Unsupported as ex:
+        raise shape_error('CSV write/read not interpretable: %s' % ex, fw.loc())
+    except (IndexError, KeyError, TypeError, AttributeError, ValueError, ZeroDivisionError, orders.Raised) as ex:
+        found['sep-clash: '] = ('a file written with the documented blank separator can be read back', {'exception': '%s: %s' % (type(ex).__name__, str(ex)[:200])})
+    for key, (desc, wit) in sorted(found.items()):
+        ctx.violation('C13.R', fw, desc, wit, node=fw.node, key=key)
+    if not [k for k in found if k != 'sep-clash: ']:
+        ctx.ok('C13.R', fw, 'CSV write -> read gives back the same observations, coordinates to the written precision and timestamps to the second (%d coordinate system / column order / separator / header cases)' % n_cases, node=fw.node)
+    ctx.extra['C13.R cases'] = n_cases
+
+
+def rule_X(ctx):
+    """C13.X GPX, network-CSV and WKT round trips by interpretation on in-memory files: writeToGpx (one file / one file per track) then
+    readFromGpx; NetworkWriter.writeToCsv then NetworkReader.readFromFile; Track.toWKT then parseWkt; the global print format of
+    timestamps is what it was before writing"""
+    from .. import absint, netmodel
+    fw = ctx.prog.func('tracklib.io.track_writer.TrackWriter.writeToGpx')
+    fn, vfs, cls, kinds, O = _io_harness(ctx, 'tracklib.io.track_reader')
+    T, OT, TF, TW, TR, TC = cls['Track'], cls['ObsTime'], cls['TrackFormat'], cls['TrackWriter'], cls['TrackReader'], cls['TrackCollection']
+    found = {}
+    n_cases = 0
+    stamps = [(2021, 12, 31, 23, 59, 59, 750), (2022, 1, 1, 0, 0, 0, 0), (2020, 2, 29, 12, 30, 15, 500)]
+    geo = [[(2.12345678, 48.87654321, 35.5), (-179.99999999, -89.5, -10.25), (0.00000001, 0.0, 0.0)],
+           [(151.2, -33.86, 58.0), (151.21, -33.87, 59.0), (151.22, -33.88, 60.125)],
+           [(10.0, 20.0, 1.0), (10.5, 20.5, 2.0), (11.0, 21.0, 3.0)]]
+
+    def tracks():
+        out = []
+        for k, pts in enumerate(geo):
+            t = T([O(kinds['GEO'](*p_), OT(*st)) for p_, st in zip(pts, stamps)], 'u', 'trk%d' % k)
+            out.append(t)
+        return out
+
+    def same_track(back, pts, case, what):
+        obs = back.fields.get('_Track__POINTS') if isinstance(back, orders.Obj) else None
+        if obs is None or len(obs) != len(pts):
+            found.setdefault('gpx-count', ('a GPX file read back gives the same number of observations in the same order', dict(case, what=what, written=len(pts), read=None if obs is None else len(obs))))
+            return
+        for k, (o, p_, st) in enumerate(zip(obs, pts, stamps)):
+            got = (o.position.getX(), o.position.getY(), o.position.getZ())
+            if any(not isinstance(g_, (int, float)) or abs(g_ - w_) > 1.001e-8 for g_, w_ in zip(got, p_)):
+                found.setdefault('gpx-coords', ('longitude, latitude and height read back equal the written ones (1e-8 degree)', dict(case, what=what, observation=k, written=list(p_), read=list(got))))
+                return
+            ts = o.timestamp
+            gt = tuple(ts.fields.get(f_) for f_ in ('year', 'month', 'day', 'hour', 'min', 'sec')) if isinstance(ts, orders.Obj) else None
+            if gt != st[:6]:
+                found.setdefault('gpx-time', ('timestamps read back from GPX are identical to the second', dict(case, what=what, observation=k, written=list(st[:6]), read=list(gt) if gt else repr(ts))))
+                return
+    vfs.dirs.add('/out/many')
+    read_fmt0 = OT.getReadFormat()
+    for one_file in (True, False):
+        n_cases += 1
+        case = {'writer': 'writeToGpx(collection of 3 tracks, oneFile=%s)' % one_file}
+        coll = TC()
+        trs = tracks()
+        for t in trs:
+            coll.call('addTrack', t)
+        try:
+            fmt_before = OT.getPrintFormat()
+            probe_before = OT(2021, 11, 7, 12, 31, 10, 0).call('__str__')
+            TW.writeToGpx(coll, '/out/all.gpx' if one_file else '/out/many', False, one_file)
+            probe_after = OT(2021, 11, 7, 12, 31, 10, 0).call('__str__')
+            if probe_after != probe_before:
+                found.setdefault('gpx-format', ('after writing, timestamps print in the format they printed in before (the writer restores the global print format on every exit)',
+                                                dict(case, **{'a timestamp printed before': probe_before, 'after': probe_after})))
+            # the caller declares the ISO read format of GPX files (as the library's documentation and tests do)
+            OT.setReadFormat("4Y-2M-2DT2h:2m:2sZ")
+            if one_file:
+                back = TR.readFromGpx('/out/all.gpx')
+                got_tracks = back.fields.get('_TrackCollection__TRACES') if isinstance(back, orders.Obj) else None
+                if got_tracks is None or len(got_tracks) != 3:
+                    found.setdefault('gpx-count', ('a GPX file read back gives the tracks that were written', dict(case, **{'tracks read': None if got_tracks is None else len(got_tracks)})))
+                else:
+                    for k, bt in enumerate(got_tracks):
+                        same_track(bt, geo[k], case, 'track %d' % k)
+            else:
+                for k in range(3):
+                    path = '/out/many/trk%d.gpx' % k
+                    if path not in vfs.files:
+                        found.setdefault('gpx-count', ('one GPX file per track is written', dict(case, **{'files written': sorted(f_ for f_ in vfs.files if f_.startswith('/out/many/'))})))
+                        break
+                    back = TR.readFromGpx(path)
+                    got_tracks = back.fields.get('_TrackCollection__TRACES') if isinstance(back, orders.Obj) else None
+                    if got_tracks is None or len(got_tracks) != 1:
+                        found.setdefault('gpx-count', ('each per-track GPX file holds that track', dict(case, file=path, **{'tracks read': None if got_tracks is None else len(got_tracks)})))
+                        break
+                    same_track(got_tracks[0], geo[k], dict(case, file=path, text=vfs.files[path][:400]), 'file %d' % k)
+            OT.setReadFormat(read_fmt0)
+        except orders.Unsupported as ex:
+            raise shape_error('GPX write/read not interpretable: %s' % ex, fw.loc())
+        except (IndexError, KeyError, TypeError, AttributeError, ValueError, ZeroDivisionError, orders.Raised) as ex:
+            found.setdefault('gpx-fails', ('GPX files written by the writer can be read back', dict(case, exception='%s: %s' % (type(ex).__name__, str(ex)[:200]))))
+    # ---- network CSV
+    fnw = ctx.prog.func('tracklib.io.network_writer.NetworkWriter.writeToCsv')
+    H = netmodel.Harness(ctx)
+    nfn = H.fn
+    from .. import iomodel
+    nvfs = iomodel.VFS().install(nfn)
+    for q in ('tracklib.io.network_writer.NetworkWriter', 'tracklib.io.network_reader.NetworkReader', 'tracklib.io.network_format.NetworkFormat', 'tracklib.core.obs_time.ObsTime'):
+        if q not in ctx.prog.classes:
+            raise anchor_error('class %s not found' % q, q)
+        absint.classref(ctx, q, nfn)
+    NW, NR, NF = nfn['NetworkWriter'], nfn['NetworkReader'], nfn['NetworkFormat']
+    P_ = netmodel.P
+    P_.__name__ = P_.__qualname__ = 'ENUCoords'
+    nfn['ENUCoords'] = P_
+    nfn['__globals__']['ENUCoords'] = P_
+    nfn['computeAbsCurv'] = lambda t: None
+    nfn['print'] = lambda *a, **k: None
+    nfn['next'] = lambda it, *d: next(it, *d)
+    edges = [('e0', 'A', 'B', 0, [(0.0, 0.0), (5.5, 1.25), (10.0, 0.0)]), ('e1', 'B', 'C', 1, [(10.0, 0.0), (10.0, 10.0)]),
+             ('e2', 'A', 'C', -1, [(0.0, 0.0), (-3.0, 4.0), (2.0, 12.5), (10.0, 10.0)]), ('e3', 'C', 'D', 0, [(10.0, 10.0), (20.125, 10.0)])]
+    for sep, header in ((',', 1), (';', 1), (',', 0)):
+        n_cases += 1
+        case = {'network': 'four edges (orientations 0, 1, -1, 0; multi-vertex geometries)', 'separator': sep, 'header rows': header}
+        try:
+            net = H.Network()
+            nodes = {}
+            for eid, u, v, ori, g in edges:
+                for nid, xy in ((u, g[0]), (v, g[-1])):
+                    if nid not in nodes:
+                        nodes[nid] = H.Node(nid, P_(*xy))
+                tr = H.Track([netmodel.O(P_(*xy)) for xy in g], 'u', eid)
+                e = H.Edge(eid, tr)
+                e.fields['orientation'] = ori
+                e.fields['weight'] = 1.0
+                net.call('addEdge', e, nodes[u], nodes[v])
+            NW.writeToCsv(net, '/out/net.csv', sep, header)
+            fmt = NF({'name': 'OUT', 'pos_edge_id': 0, 'pos_source': 1, 'pos_target': 2, 'pos_direction': 3, 'pos_wkt': 4, 'separator': sep, 'header': header, 'srid': 'ENU'})
+            back = NR.readFromFile('/out/net.csv', fmt, False)
+        except orders.Unsupported as ex:
+            raise shape_error('network write/read not interpretable: %s' % ex, fnw.loc())
+        except (IndexError, KeyError, TypeError, AttributeError, ValueError, ZeroDivisionError, orders.Raised) as ex:
+            found.setdefault('net-fails', ('a network written to CSV can be read back', dict(case, exception='%s: %s' % (type(ex).__name__, str(ex)[:200]), file=nvfs.files.get('/out/net.csv', '')[:300])))
+            continue
+        E2 = back.fields.get('EDGES') if isinstance(back, orders.Obj) else None
+        if not isinstance(E2, dict) or sorted(E2) != sorted(e_[0] for e_ in edges):
+            found.setdefault('net-edges', ('the network read back has the same edges', dict(case, written=[e_[0] for e_ in edges], read=sorted(E2) if isinstance(E2, dict) else repr(E2), file=nvfs.files.get('/out/net.csv', '')[:300])))
+            continue
+        for eid, u, v, ori, g in edges:
+            e2 = E2[eid]
+            got = {'source': e2.fields['source'].fields['id'], 'target': e2.fields['target'].fields['id'], 'orientation': e2.fields['orientation'],
+                   'geometry': [(o.position.getX(), o.position.getY()) for o in e2.fields['geom'].fields['_Track__POINTS']]}
+            want = {'source': u, 'target': v, 'orientation': ori, 'geometry': [tuple(xy) for xy in g]}
+            if got != want:
+                found.setdefault('net-edge', ('every edge read back has the same end nodes, orientation and geometry', dict(case, edge=eid, written=want, read=got)))
+                break
+        nd = back.fields.get('NODES')
+        want_nodes = {}
+        for eid, u, v, ori, g in edges:
+            want_nodes.setdefault(u, tuple(g[0]))
+            want_nodes.setdefault(v, tuple(g[-1]))
+        got_nodes = {k_: (n_.fields['coord'].getX(), n_.fields['coord'].getY()) for k_, n_ in nd.items()} if isinstance(nd, dict) else None
+        if got_nodes != want_nodes:
+            found.setdefault('net-nodes', ('the network read back has the same nodes, at the same places (the ends of the edge geometries)', dict(case, written=want_nodes, read=got_nodes)))
+    # ---- WKT text of a track
+    n_cases += 1
+    try:
+        t = T([O(kinds['ENU'](x, y, 0.0), OT(*stamps[0])) for x, y in ((0.0, 0.0), (-12.5, 3.25), (1234.567, -0.001), (1e-05, 7.0))], 'u', 'w')
+        txt = t.call('toWKT')
+        back = TR.parseWkt(txt)
+        obs = back.fields.get('_Track__POINTS') if isinstance(back, orders.Obj) else None
+        got = [(o.position.getX(), o.position.getY()) for o in obs] if obs else None
+        if got != [(0.0, 0.0), (-12.5, 3.25), (1234.567, -0.001), (1e-05, 7.0)]:
+            found.setdefault('wkt', ('a track exported as WKT text and parsed back has the same planimetric coordinates', {'text': txt, 'read': got}))
+    except orders.Unsupported as ex:
+        raise shape_error('WKT export/parse not interpretable: %s' % ex, fw.loc())
+    except (IndexError, KeyError, TypeError, AttributeError, ValueError, orders.Raised) as ex:
+        found.setdefault('wkt', ('a track exported as WKT text can be parsed back', {'exception': '%s: %s' % (type(ex).__name__, str(ex)[:200])}))
+    for key, (desc, wit) in sorted(found.items()):
+        f_ = fnw if key.startswith('net') else fw
+        ctx.violation('C13.X', f_, desc, wit, node=f_.node, key=key)
+    for fam, f_ in (('gpx', fw), ('net', fnw), ('wkt', fw)):
+        if not any(k.startswith(fam) for k in found):
+            ctx.ok('C13.X', f_, {'gpx': 'GPX: one file and one file per track read back identical (1e-8 degree, to the second); print format restored',
+                                 'net': 'network CSV: edges, end nodes, orientations (0, 1, -1) and multi-vertex geometries read back identical (3 separator/header cases)',
+                                 'wkt': 'WKT text of a track parsed back to the same planimetric coordinates'}[fam], node=f_.node)
+    ctx.extra['C13.X cases'] = n_cases
+
+
 RULES = [
-    ('C13.P', rule_P, 'quick'),
-    ('C13.O', rule_O, 'quick'),
-    ('C13.H', rule_H, 'quick'),
-    ('C13.T', rule_T, 'quick'),
-    ('C13.G', rule_G, 'quick'),
-    ('C13.N', rule_N, 'quick'),
-    ('C13.W', rule_W, 'quick'),
+    ('C13.R', rule_R, 'quick'),
+    ('C13.X', rule_X, 'quick'),
 ]
-MIN_OBLIGATIONS = 30
+# the writer/reader table comparisons (rule_P/O/H/T/G/N/W) are no longer run: C13.R and C13.X decide the same clauses on files actually
+# produced and consumed by the interpreted writer and reader, whatever their internal layout (C13-R5 and C13-R6, behaviour-preserving
+# rewrites, made the table rules report a violation / a shape error)
+MIN_OBLIGATIONS = 4
